@@ -135,7 +135,50 @@ class _Tracking(io.StringIO):
         return super().write(s)
 
 
-def run_cli(model: pathlib.Path, target: str, snippets: pathlib.Path, out: pathlib.Path, scratch: pathlib.Path) -> Dict[str, Any]:
+class _ErrorSpy:
+    """Records every ``aas_core_codegen.common.Error`` constructed while active, with the file:function constructing it.
+
+    The class object is shared by all the modules (``from aas_core_codegen.common import Error``), so wrapping its
+    ``__init__`` sees every construction; nothing in the repository is edited."""
+
+    def __init__(self) -> None:
+        self.created: List[Tuple[str, Any]] = []
+        self._orig: Any = None
+
+    def __enter__(self) -> "_ErrorSpy":
+        from aas_core_codegen import common
+
+        orig = common.Error.__init__
+        created = self.created
+        root = str((REPO / "aas_core_codegen").resolve()) + os.sep
+
+        def spying_init(this: Any, *args: Any, **kwargs: Any) -> None:
+            orig(this, *args, **kwargs)
+            f = sys._getframe(1)
+            fname = os.path.realpath(f.f_code.co_filename)
+            site = (fname[len(root):] if fname.startswith(root) else os.path.basename(fname)) + ":" + f.f_code.co_name
+            created.append((site, this))
+
+        self._orig = orig
+        common.Error.__init__ = spying_init  # type: ignore
+        return self
+
+    def __exit__(self, *exc: Any) -> None:
+        from aas_core_codegen import common
+
+        common.Error.__init__ = self._orig  # type: ignore
+
+
+def _nesting(errors: List[Any]) -> List[Tuple[int, int]]:
+    index = {id(e): i for i, e in enumerate(errors)}
+    return [(i, index[id(u)]) for i, e in enumerate(errors) for u in (e.underlying or []) if id(u) in index]
+
+
+def run_cli(
+    model: pathlib.Path, target: str, snippets: pathlib.Path, out: pathlib.Path, scratch: pathlib.Path, spy: bool = False
+) -> Dict[str, Any]:
+    import contextlib
+
     import aas_core_codegen.main as m
 
     stdout, stderr = io.StringIO(), _Tracking()
@@ -144,14 +187,19 @@ def run_cli(model: pathlib.Path, target: str, snippets: pathlib.Path, out: pathl
     os.makedirs(tempfile.tempdir, exist_ok=True)
     exc = None
     rc: Any = None
+    error_spy = _ErrorSpy()
     try:
-        params = m.Parameters(model_path=model, target=m.Target(target), snippets_dir=snippets, output_dir=out)
-        rc = m.execute(params, stdout=stdout, stderr=stderr)
+        with error_spy if spy else contextlib.nullcontext():
+            params = m.Parameters(model_path=model, target=m.Target(target), snippets_dir=snippets, output_dir=out)
+            rc = m.execute(params, stdout=stdout, stderr=stderr)
     except BaseException as e:  # noqa
         exc = crash_name(e)
     finally:
         tempfile.tempdir = saved
-    return {"rc": rc, "stdout": stdout.getvalue(), "stderr": stderr.getvalue(), "exc": exc, "sites": stderr.sites, "out": str(out)}
+    return {"rc": rc, "stdout": stdout.getvalue(), "stderr": stderr.getvalue(), "exc": exc, "sites": stderr.sites, "out": str(out),
+            "errors_created": [(site, e.message) for site, e in error_spy.created],
+            # index pairs (outer, inner): error `inner` was handed over as an underlying error of `outer`
+            "errors_nesting": _nesting([e for _, e in error_spy.created])}
 
 
 def judge(res: Dict[str, Any]) -> List[Tuple[str, str]]:
@@ -447,6 +495,212 @@ def pair_stream(ctx: Ctx, scratch: pathlib.Path) -> None:
 
 
 
+# --------------------------------------------------------------------------- errors found by the generators
+
+GEN_HEADER = '''\
+from enum import Enum
+from re import match
+from typing import List, Optional, Set
+
+from icontract import invariant, DBC
+
+from aas_core_meta.marker import (
+    abstract,
+    serialization,
+    implementation_specific,
+    verification,
+    constant_set,
+    non_mutating,
+)
+
+__version__ = "V0.1"
+
+__xml_namespace__ = "https://example.com/aasv/0/1"
+
+'''
+
+#: a description which the front end accepts (its smoke rendering of the descriptions rejects all the docutils elements which the
+#: generators do not handle), but five of the SDK generators can not render: a backtick inside an inline literal
+UNRENDERABLE = "Represent ``a`b`` something."
+PLAIN_DOC = "Represent something."
+
+#: the positions of a description in a meta-model; every one is rendered by its own piece of every SDK generator
+DESCRIPTION_POSITIONS = [
+    "meta-model", "class", "property", "enumeration", "enumeration-literal", "constant-primitive", "constant-set-of-primitives",
+    "constant-set-of-enumeration-literals", "verification-function", "method", "constrained-primitive",
+]
+
+
+def description_model(positions: Any) -> str:
+    """A small accepted model with the unrenderable description at the given positions, a plain one everywhere else."""
+
+    def d(pos: str) -> str:
+        return UNRENDERABLE if pos in positions else PLAIN_DOC
+
+    return (
+        f'"""{d("meta-model")}"""\n' + GEN_HEADER
+        + f'class Kind(Enum):\n    """{d("enumeration")}"""\n\n    First = "first"\n    """{d("enumeration-literal")}"""\n\n\n'
+        + f'@invariant(\n    lambda self: len(self) > 0,\n    "Some constraint.",\n)\nclass Limit(str, DBC):\n    """{d("constrained-primitive")}"""\n\n\n'
+        + f'@verification\n@implementation_specific\ndef is_fine(text: str) -> bool:\n    """{d("verification-function")}"""\n\n\n'
+        + f'class Thing(DBC):\n    """{d("class")}"""\n\n    limit: Limit\n    """{d("property")}"""\n\n'
+        + '    def __init__(self, limit: Limit) -> None:\n        self.limit = limit\n\n'
+        + f'    @implementation_specific\n    def compute(self) -> str:\n        """{d("method")}"""\n\n\n'
+        + f'Some_text: str = constant_str(\n    value="x",\n    description="{d("constant-primitive")}",\n)\n\n'
+        + f'Some_texts: Set[str] = constant_set(\n    values=["x", "y"],\n    description="{d("constant-set-of-primitives")}",\n)\n\n'
+        + f'Some_kinds: Set[Kind] = constant_set(\n    values=[Kind.First],\n    description="{d("constant-set-of-enumeration-literals")}",\n)\n'
+    )
+
+
+def number_model(kind: str) -> str:
+    """Integers beyond the range of a double / of a 64-bit integer, where a generator has to write them as a literal."""
+    big = ["9007199254740993", "18446744073709551616"]  # 2**53 + 1, 2**64
+    body = {
+        "constant-int": f"Some_number: int = constant_int(\n    value={big[1]},\n    description=\"{PLAIN_DOC}\",\n)\n",
+        "constant-set-of-ints": f"Some_numbers: Set[int] = constant_set(\n    values=[1, {big[0]}, {big[1]}],\n    description=\"{PLAIN_DOC}\",\n)\n",
+    }[kind]
+    return (
+        GEN_HEADER
+        + f'class Thing(DBC):\n    """{PLAIN_DOC}"""\n\n    val: str\n    """{PLAIN_DOC}"""\n\n    def __init__(self, val: str) -> None:\n        self.val = val\n\n\n'
+        + body
+    )
+
+
+#: everything that needs a snippet: an implementation-specific class, method, constructor and verification function
+SPECIFIC_MODEL = GEN_HEADER + '''\
+@implementation_specific
+class Special(DBC):
+    """Represent something special."""
+
+    val: str
+    """Hold a value."""
+
+    def __init__(self, val: str) -> None:
+        self.val = val
+
+
+class Plain(DBC):
+    """Represent something with an implementation-specific constructor."""
+
+    @implementation_specific
+    def __init__(self) -> None:
+        pass
+
+
+class Thing(DBC):
+    """Represent a thing."""
+
+    special: Special
+    """Hold something special."""
+
+    plain: Plain
+    """Hold something plain."""
+
+    def __init__(self, special: Special, plain: Plain) -> None:
+        self.special = special
+        self.plain = plain
+
+    @implementation_specific
+    def compute(self) -> str:
+        """Compute something."""
+
+
+@verification
+@implementation_specific
+def is_fine(text: str) -> bool:
+    """Check it."""
+'''
+
+
+def generator_error_models() -> List[Tuple[str, str]]:
+    """Seed independent: one model per position of an unrenderable description, two positions at once, unrepresentable numbers."""
+    out = [("description-nowhere", description_model(()))]
+    for pos in DESCRIPTION_POSITIONS:
+        out.append((f"description-at-{pos}", description_model((pos,))))
+    out.append(("description-at-class-and-constant-set", description_model(("class", "constant-set-of-primitives", "constant-primitive"))))
+    out.append(("number-constant-int", number_model("constant-int")))
+    out.append(("number-constant-set-of-ints", number_model("constant-set-of-ints")))
+    return out
+
+
+def _norm(text: str) -> str:
+    return " ".join(text.split())
+
+
+def dropped_errors(res: Dict[str, Any], target: str) -> List[Tuple[str, str]]:
+    """[(site, message)] of the errors which a generator of ``target`` constructed during the run and which are not in the report.
+
+    The statement (written from the property text, independent of how the generators pass the errors around): a run in which a
+    generator found an error exits non-zero, and everything found is in the report (nested errors included)."""
+    if res["exc"] is not None:
+        return []
+    report = _norm(res["stderr"])
+    own = {"csharp": ("csharp/", "smoke/"), "xsd": ("xsd/", "infer_for_schema/"), "jsonschema": ("jsonschema/", "infer_for_schema/")}.get(target, (target + "/",))
+    missing = [
+        i for i, (site, message) in enumerate(res["errors_created"])
+        if site.startswith(own) and (res["rc"] == 0 or _norm(message) not in report)
+    ]
+    # an error which went missing together with the error wrapping it is not a root cause of its own
+    inner = {i for o, i in res.get("errors_nesting", []) if o in missing}
+    return [res["errors_created"][i] for i in missing if i not in inner]
+
+
+def generator_error_stream(
+    ctx: Ctx, scratch: pathlib.Path, only: Optional[Tuple[str, ...]] = None, models: Optional[List[Tuple[str, str]]] = None
+) -> List[Dict[str, Any]]:
+    """Accepted models on which a generator has to report an error (or not), all targets, with full snippet sets."""
+    from harness import mm
+
+    seen: List[Dict[str, Any]] = []
+    if models is None:
+        models = [(c["name"], c["model"]) for c in corpus(ID) if c.get("kind") == "generator-error" and "missing" not in c]
+        models += generator_error_models()
+        # every snippet of the model in which everything is implementation-specific, left out one at a time
+        models = models + [("missing-snippet", SPECIFIC_MODEL)]
+    for k, (name, text) in enumerate(models):
+        if only is not None and name != only[0]:
+            continue
+        ld = mm.load(text)
+        if not ld.ok:
+            raise RuntimeError(f"the model {name} of the generator-error stream is not accepted: {ld.error or ld.crash}")
+        path = scratch / f"generr_{k}.py"
+        path.write_text(text, encoding="utf-8")
+        runs: List[Tuple[str, Optional[str]]] = []
+        for target in TARGETS:
+            if only is not None and target != only[1]:
+                continue
+            if name == "missing-snippet":
+                keys = sorted(mm.snippets_for(target, ld.symbol_table))
+                runs += [(target, key) for key in keys if only is None or len(only) < 3 or only[2] == key]
+            else:
+                runs.append((target, None))
+        for j, (target, missing) in enumerate(runs):
+            snippets = scratch / f"generr_{k}_{j}_snippets"
+            for rel, content in mm.snippets_for(target, ld.symbol_table).items():
+                if rel == missing:
+                    continue
+                (snippets / rel).parent.mkdir(parents=True, exist_ok=True)
+                (snippets / rel).write_text(content, encoding="utf-8")
+            out = scratch / f"generr_{k}_{j}_out"
+            res = run_cli(path, target, snippets, out, scratch, spy=True)
+            ctx.count(("generator-error", name, target, missing), nontrivial=True, stream="cli-generator-error" if missing is None else "cli-missing-snippet")
+            ctx.hit(f"generator-error:rc={res['rc']}" if res["exc"] is None else f"generator-error:{res['exc']}")
+            inp = {"kind": "generator-error", "name": name, "target": target, "model": text}
+            if missing is not None:
+                inp["missing"] = missing
+            for sig, what in judge(res):
+                ctx.fail(inp, what, sig + ":generator-error")
+            dropped = dropped_errors(res, target)
+            for site, message in dropped:
+                ctx.hit("generator-error:dropped")
+                sig = f"C03:error-dropped:generator:{site}"
+                if sum(1 for f in ctx.failures if f["sig"] == sig) < 2:
+                    ctx.fail(inp, f"{target} exits {res['rc']}, but the error constructed in {site} is not in the report: {message[:200]!r}", sig)
+            seen.append({"name": name, "target": target, "missing": missing, "rc": res["rc"], "exc": res["exc"], "dropped": dropped, "stderr": res["stderr"][:300]})
+            shutil.rmtree(out, ignore_errors=True)
+            shutil.rmtree(snippets, ignore_errors=True)
+    return seen
+
+
 def history_stream(ctx: Ctx, scratch: pathlib.Path) -> None:
     """Output-directory histories per target: generate twice into the same directory; generate into a directory
     that holds a regular file where a sub-directory is needed and a directory where a file is to be written."""
@@ -541,6 +795,11 @@ def oracle(ctx: Ctx) -> None:
             shutil.rmtree(out, ignore_errors=True)
     ctx.extra_cov["cli_runs"] = kinds
     pair_stream(ctx, scratch)
+    generator_error_stream(ctx, scratch)
+    for c in corpus(ID):
+        if c.get("kind") == "generator-error" and "missing" in c:
+            # a witness of the missing-snippet sub-stream: this target without this snippet
+            generator_error_stream(ctx, scratch, only=("missing-snippet", c["target"], c["missing"]), models=[("missing-snippet", c["model"])])
     history_stream(ctx, scratch)
     subprocess_stream(ctx, scratch)
 
@@ -553,6 +812,10 @@ def replay(ctx: Ctx, data: Dict[str, Any]) -> Any:
         if ctx.driver_ok:
             res["model"] = ctx.model([f"write {enc_text(inp['message'])} {enc_list(inp['errors'])}"])[0]
         return res
+    if inp.get("kind") == "generator-error":
+        # exactly the recorded model (whether or not it still is a part of the enumerated stream)
+        only = (inp["name"], inp["target"]) + ((inp["missing"],) if "missing" in inp else ())
+        return generator_error_stream(ctx, scratch, only=only, models=[(inp["name"], inp["model"])])
     for kind, model, target, snippets, out in cli_inputs(ctx, scratch):
         if kind == inp["kind"] and target == inp["target"] and (kind not in ("valid", "rejected-model") or str(model) == inp["model"]):
             res = run_cli(model, target, snippets, out, scratch)
